@@ -716,6 +716,28 @@ impl<'a> G<'a> {
                 }
                 Some(E::combine(format!("LIST_RANGE({}, {lo}, {hi})", a.text), V::L(r), &[&a], true))
             }
+            15 => {
+                // list-valued bounds: the lower bound counts with its smallest item, the upper
+                // bound with its largest (both bounds non-empty lists)
+                let a = self.list(depth - 1)?;
+                let lo_e = self.list(depth - 1)?;
+                let hi_e = self.list(depth - 1)?;
+                let x = as_l(&a.val);
+                let (Some(lo), Some(hi)) = (as_l(&lo_e.val).min(), as_l(&hi_e.val).max()) else {
+                    return Some(a);
+                };
+                let mut r = ListV::empty();
+                r.items = x.items.iter().filter(|i| i.2 >= lo && i.2 <= hi).cloned().collect();
+                if !x.items.is_empty() {
+                    r.origins = x.origin_names();
+                }
+                Some(E::combine(
+                    format!("LIST_RANGE({}, {}, {})", a.text, lo_e.text, hi_e.text),
+                    V::L(r),
+                    &[&a, &lo_e, &hi_e],
+                    true,
+                ))
+            }
             _ => self.list(depth - 1),
         }
     }
